@@ -36,6 +36,9 @@ def obs_of(lines):
             out[k] = tuple(sorted(v.split(",")))            # parameter order is first-use order: not claimed
         elif k.startswith("wrapper ") and (k.endswith(" variants") or k.endswith(" tables") or k.endswith(" bridged")):
             out[k] = tuple(sorted(v.split(",")))            # one part per interface; their order follows the attributes
+        elif k.startswith("wrapper ") and (k.endswith(" schema") or k.endswith(" responses")):
+            how, _, parts = v.partition(":")
+            out[k] = (how, tuple(sorted(parts.split(","))))  # any_of / union over the parts: a set
         else:
             out[k] = v
     return out
